@@ -278,6 +278,65 @@ def scen_oa(env, mode, with_guard, nput, stop_data, late=False, hop_put=False):
     env.check('within-stop-timeout', state['stopped_at'] - state['stop_at'] <= 1000.0)
 
 
+def scen_missing_arg(env, mode):
+    """'every put accepted results in exactly one of on_success, on_error or on_cancel carrying the original event data':
+    also a put that lacks an item the coroutine's arguments are taken from (f_args=['value'] by default) - the run
+    cannot be started, which is an error of that run (on_error), not a lost event and not the end of the block"""
+    circ = fresh_circuit()
+    loopref = []
+    now = lambda: loopref[0].time()
+    p = Probe('p', clock=now)
+    dur = env.real('dur', 0, 10, lo_open=True)
+    gap = env.real('gap', 0, 20)
+    ran = []
+
+    async def coro(value):
+        ran.append(value)
+        await asyncio.sleep(dur)
+        return ('result', value)
+    oa = edzed.OutputAsync('oa', coro=coro, mode=mode, stop_timeout=100.0,
+                           on_success=edzed.Event(p, 'ok'), on_cancel=edzed.Event(p, 'cancel'), on_error=edzed.Event(p, 'err'))
+    state = {}
+
+    async def main():
+        loopref.append(asyncio.get_running_loop())
+        task = asyncio.create_task(circ.run_forever())
+        await circ.wait_init()
+        ev = edzed.ExtEvent(oa, 'put')
+        try:
+            state['ret'] = ev.send(extra='no value item')
+        except Exception as err:
+            state['ret'] = err
+        await asyncio.sleep(gap)
+        state['alive'] = circ.is_ready() and not task.done()
+        if state['alive']:
+            ev.send(7)
+            await asyncio.sleep(30.0)
+            state['output_idle'] = oa.output
+            await circ.shutdown()
+        else:
+            try:
+                await task
+            except BaseException as err:
+                state['end'] = err
+    vloop.run(main())
+    env.note('put-without-argument-item')
+    refused = isinstance(state['ret'], Exception)
+    if refused:
+        # refusing the put outright (reported to the sender) would be fine too - it is then not an accepted put
+        env.check('one-result-per-put', state['alive'] and [et for _, et, _ in p.log] == ['ok'], info=lambda: (state, p.log))
+        return
+    kinds = [(et, d['put'].get('value', 'MISSING')) for _, et, d in p.log]
+    env.check('noerror', state['alive'] and isinstance(circ.error, asyncio.CancelledError), info=lambda: (state, circ.error))
+    env.check('one-result-per-put', sorted(kinds, key=str) == sorted([('err', 'MISSING'), ('ok', 7)], key=str) and ran == [7],
+              info=lambda: (mode, kinds, ran, state))
+    if state['alive']:
+        env.check('output-idle', state['output_idle'] == 0, info=lambda: state)
+        bad = [d for _, et, d in p.log if et == 'err']
+        env.check('result-data', len(bad) == 1 and bad[0]['put'].get('extra') == 'no value item'
+                  and isinstance(bad[0].get('error'), Exception), info=lambda: bad)
+
+
 def scen_ctor(env):
     """guard_time must not exceed stop_timeout"""
     fresh_circuit()
@@ -302,6 +361,8 @@ def scen_ctor(env):
 def shards(tier):
     n = BOUNDS[tier]['puts']
     out = [{'name': 'ctor', 'scenario': 'scen_ctor'}]
+    for mode in ('wait', 'cancel', 'start'):
+        out.append({'name': f'{mode}: put without the argument item', 'scenario': 'scen_missing_arg', 'params': {'mode': mode}})
     for mode in ('wait', 'cancel', 'start'):
         for wg in (False, True):
             for sd in (False, True):
